@@ -11,6 +11,7 @@ Fixpoint none_sound (E : env) (d : desc) : bool :=
   | DInstance cls false _ => negb (issub E cNONE cls)
   | DSelf false => negb (issub E cNONE (e_self E))
   | DTuple ds | DCompound ds | DUnion ds | DVTuple ds _ => forallb (none_sound E) ds
+  | DDict kd vd => none_sound E kd && none_sound E vd
   | DProperty d' | DList d' _ _ => none_sound E d'
   | _ => true
   end.
@@ -19,6 +20,7 @@ Fixpoint no_adapt (d : desc) : bool :=
   match d with
   | DAdapt _ _ _ _ => false
   | DTuple ds | DCompound ds | DUnion ds | DVTuple ds _ => forallb no_adapt ds
+  | DDict kd vd => no_adapt kd && no_adapt vd
   | DProperty d' | DList d' _ _ => no_adapt d'
   | _ => true
   end.
@@ -142,7 +144,7 @@ Qed.
 
 Lemma leaf_sound E d :
   bool_final E = true ->
-  (forall ds, d <> DTuple ds /\ d <> DCompound ds /\ d <> DUnion ds) -> (forall d', d <> DProperty d' /\ (forall ds fv, d <> DVTuple ds fv) /\ forall mn mx, d <> DList d' mn mx) -> sound_at E d.
+  (forall ds, d <> DTuple ds /\ d <> DCompound ds /\ d <> DUnion ds) -> (forall d', d <> DProperty d' /\ (forall ds fv, d <> DVTuple ds fv) /\ (forall mn mx, d <> DList d' mn mx) /\ forall d2, d <> DDict d' d2) -> sound_at E d.
 Proof.
   intros HB Hleaf Hnp Hwf Hn Ha v w.
   destruct d; cbn [c_validate]; cbn in Hn, Ha; try discriminate.
@@ -218,7 +220,8 @@ Proof.
     intros Hx; inversion Hx; subst. destruct w; try discriminate. cbn in *. now rewrite H1, H2.
   - (* DProperty *) exfalso. now apply (proj1 (Hnp d)).
   - (* DVTuple *) exfalso. now apply (proj1 (proj2 (Hnp DAny)) ds fv).
-  - (* DList *) exfalso. now apply (proj2 (proj2 (Hnp d)) minlen maxlen).
+  - (* DList *) exfalso. now apply (proj1 (proj2 (proj2 (Hnp d))) minlen maxlen).
+  - (* DDict *) exfalso. eapply (proj2 (proj2 (proj2 (Hnp _)))). reflexivity.
 Qed.
 
 Lemma tuple_sound E ds : Forall (sound_at E) ds -> sound_at E (DTuple ds).
@@ -286,7 +289,7 @@ Qed.
 
 Lemma py_leaf_sound E d :
   bool_final E = true ->
-  (forall ds, d <> DTuple ds /\ d <> DCompound ds /\ d <> DUnion ds) -> (forall d', d <> DProperty d' /\ (forall ds fv, d <> DVTuple ds fv) /\ forall mn mx, d <> DList d' mn mx) -> psound_at E d.
+  (forall ds, d <> DTuple ds /\ d <> DCompound ds /\ d <> DUnion ds) -> (forall d', d <> DProperty d' /\ (forall ds fv, d <> DVTuple ds fv) /\ (forall mn mx, d <> DList d' mn mx) /\ forall d2, d <> DDict d' d2) -> psound_at E d.
 Proof.
   intros HB Hleaf Hnp Hwf Hn Ha v w.
   destruct d; cbn [py_validate]; cbn in Hn, Ha; try discriminate.
@@ -345,7 +348,8 @@ Proof.
   - (* DArray: the same function on both paths *) apply (leaf_sound E (DArray dt shape casting) HB Hleaf Hnp Hwf Hn Ha v w).
   - exfalso. now apply (proj1 (Hnp d)).
   - exfalso. now apply (proj1 (proj2 (Hnp DAny)) ds fv).
-  - exfalso. now apply (proj2 (proj2 (Hnp d)) minlen maxlen).
+  - exfalso. now apply (proj1 (proj2 (proj2 (Hnp d))) minlen maxlen).
+  - exfalso. eapply (proj2 (proj2 (proj2 (Hnp _)))). reflexivity.
 Qed.
 
 Lemma py_tuple_sound E ds : Forall (sound_at E) ds -> psound_at E (DTuple ds).
@@ -423,11 +427,72 @@ Proof.
   cbn [dom]. now rewrite H2, Hb, H1.
 Qed.
 
+Lemma dict_put_in l k x : forall k' x',
+  (In k' (map fst (dict_put l k x)) -> In k' (map fst l) \/ k' = k) /\
+  (In x' (map snd (dict_put l k x)) -> In x' (map snd l) \/ x' = x).
+Proof.
+  induction l as [|[k0 x0] l IH]; cbn; intros k' x'.
+  - split; intros [H|[]]; auto.
+  - destruct (py_eq k k0); cbn.
+    + split; intros [H|H]; auto.
+    + destruct (IH k' x') as [I1 I2]. split; intros [H|H]; auto.
+      * destruct (I1 H); auto.
+      * destruct (I2 H); auto.
+Qed.
+
+Lemma dict_build_in l : forall k' x',
+  (In k' (map fst (dict_build l)) -> In k' (map fst l)) /\ (In x' (map snd (dict_build l)) -> In x' (map snd l)).
+Proof.
+  unfold dict_build.
+  assert (G : forall l acc k' x',
+             (In k' (map fst (fold_left (fun a kv => dict_put a (fst kv) (snd kv)) l acc)) ->
+              In k' (map fst acc) \/ In k' (map fst l)) /\
+             (In x' (map snd (fold_left (fun a kv => dict_put a (fst kv) (snd kv)) l acc)) ->
+              In x' (map snd acc) \/ In x' (map snd l))).
+  { clear l. induction l as [|[k x] l IH]; cbn; intros acc k' x'; [split; auto|].
+    destruct (IH (dict_put acc k x) k' x') as [I1 I2]. destruct (dict_put_in acc k x k' x') as [P1 P2].
+    split; intros H.
+    - destruct (I1 H) as [H'|H']; auto. destruct (P1 H'); auto.
+    - destruct (I2 H) as [H'|H']; auto. destruct (P2 H'); auto. }
+  intros k' x'. destruct (G l [] k' x') as [G1 G2]. split; intros H; [destruct (G1 H) | destruct (G2 H)]; auto; contradiction.
+Qed.
+
+Lemma all_pairs_rel (fk fv : pv -> vres) kvs l : all_pairs fk fv kvs = DOk l ->
+  (forall k', In k' (map fst l) -> exists k, In k (map fst kvs) /\ fk k = Accept k') /\
+  (forall x', In x' (map snd l) -> exists x, In x (map snd kvs) /\ fv x = Accept x').
+Proof.
+  revert l. induction kvs as [|[k x] kvs IH]; cbn; intros l.
+  - intros H; inversion H; subst. split; intros ? [].
+  - destruct (fk k) as [k1| |e] eqn:Hk; try discriminate.
+    destruct (fv x) as [x1| |e] eqn:Hx; try discriminate.
+    destruct (all_pairs fk fv kvs) as [l'| |e] eqn:Hm; try discriminate.
+    intros H; inversion H; subst. destruct (IH l' eq_refl) as [I1 I2]. cbn. split.
+    + intros k' [<-|Hin]; [exists k; auto|]. destruct (I1 k' Hin) as (k0 & H0 & H1). exists k0; auto.
+    + intros x' [<-|Hin]; [exists x; auto|]. destruct (I2 x' Hin) as (x0 & H0 & H1). exists x0; auto.
+Qed.
+
+Lemma dict_sound E kd vd : sound_at E kd -> sound_at E vd ->
+  wf_desc (DDict kd vd) = true -> none_sound E (DDict kd vd) = true -> no_adapt (DDict kd vd) = true ->
+  forall v w, dict_check (c_validate E kd) (c_validate E vd) v = Accept w -> dom E (DDict kd vd) w = true.
+Proof.
+  intros Hk Hv Hwf Hn Ha v w. cbn in Hwf, Hn, Ha.
+  apply andb_prop in Hwf as [W1 W2]. apply andb_prop in Hn as [N1 N2]. apply andb_prop in Ha as [A1 A2].
+  unfold dict_check. destruct v; try discriminate.
+  destruct (all_pairs (c_validate E kd) (c_validate E vd) l) as [l'| |e] eqn:Hm; try discriminate.
+  intros Hx; inversion Hx; subst. cbn [dom]. destruct (all_pairs_rel _ _ _ _ Hm) as [R1 R2].
+  apply andb_true_intro. split; apply forallb_forall; intros y Hy.
+  - apply (proj1 (dict_build_in l' y y)) in Hy. destruct (R1 y Hy) as (k & _ & Hk'). eapply Hk; eauto.
+  - apply (proj2 (dict_build_in l' y y)) in Hy. destruct (R2 y Hy) as (x & _ & Hx'). eapply Hv; eauto.
+Qed.
+
 Definition both_sound_at (E : env) (d : desc) : Prop := sound_at E d /\ psound_at E d.
 
 Lemma both_sound E d : bool_final E = true -> both_sound_at E d.
 Proof.
-  intros HB. induction d as [d H Hnp|d IHd|ds fv H|d mn mx IHd|ds H|ds H|ds H] using desc_ind'.
+  intros HB. induction d as [d H Hnp|d IHd|ds fv H|d mn mx IHd|kd vd IHk IHv|ds H|ds H|ds H] using desc_ind'.
+  5:{ (* Dict(<key trait>, <value trait>) *)
+      destruct IHk as [IHk _], IHv as [IHv _].
+      split; intros Hwf Hn Ha v w; cbn [c_validate py_validate]; now apply dict_sound. }
   4:{ (* List(<trait>): the items go through CTrait.validate of the item trait on both paths *)
       destruct IHd as [IHc _]. split; intros Hwf Hn Ha v w; cbn [c_validate py_validate]; now apply list_sound. }
   - split; [now apply leaf_sound | now apply py_leaf_sound].
@@ -822,7 +887,7 @@ Proof.
 Qed.
 
 Lemma leaf_own E d :
-  (forall ds, d <> DTuple ds /\ d <> DCompound ds /\ d <> DUnion ds) -> (forall d', d <> DProperty d' /\ (forall ds fv, d <> DVTuple ds fv) /\ forall mn mx, d <> DList d' mn mx) -> own_at E d.
+  (forall ds, d <> DTuple ds /\ d <> DCompound ds /\ d <> DUnion ds) -> (forall d', d <> DProperty d' /\ (forall ds fv, d <> DVTuple ds fv) /\ (forall mn mx, d <> DList d' mn mx) /\ forall d2, d <> DDict d' d2) -> own_at E d.
 Proof.
   intros Hleaf Hnp _ v e. destruct d; cbn [c_validate]; try discriminate.
   - (* DInt *) unfold of_conv. destruct (as_integer v) as [x|[]] eqn:H; try discriminate;
@@ -864,7 +929,8 @@ Proof.
     destruct (arr_dtype_ok dt a1 && arr_shape_ok shape a1); discriminate.
   - (* DProperty *) exfalso. now apply (proj1 (Hnp d)).
   - (* DVTuple *) exfalso. now apply (proj1 (proj2 (Hnp DAny)) ds fv).
-  - (* DList *) exfalso. now apply (proj2 (proj2 (Hnp d)) minlen maxlen).
+  - (* DList *) exfalso. now apply (proj1 (proj2 (proj2 (Hnp d))) minlen maxlen).
+  - (* DDict *) exfalso. eapply (proj2 (proj2 (proj2 (Hnp _)))). reflexivity.
 Qed.
 
 (* the same on the Python path (Property(<trait>) is validated there) *)
@@ -894,12 +960,12 @@ Proof.
 Qed.
 
 Lemma py_leaf_own E d :
-  (forall ds, d <> DTuple ds /\ d <> DCompound ds /\ d <> DUnion ds) -> (forall d', d <> DProperty d' /\ (forall ds fv, d <> DVTuple ds fv) /\ forall mn mx, d <> DList d' mn mx) -> pown_at E d.
+  (forall ds, d <> DTuple ds /\ d <> DCompound ds /\ d <> DUnion ds) -> (forall d', d <> DProperty d' /\ (forall ds fv, d <> DVTuple ds fv) /\ (forall mn mx, d <> DList d' mn mx) /\ forall d2, d <> DDict d' d2) -> pown_at E d.
 Proof.
   intros Hleaf Hnp Hwf v e.
   destruct d; cbn [py_validate]; try discriminate;
     try (exact (leaf_own E _ Hleaf Hnp Hwf v e));
-    try (exfalso; first [ now apply (proj1 (Hnp d)) | now apply (proj1 (proj2 (Hnp DAny)) ds fv) | now apply (proj2 (proj2 (Hnp d)) minlen maxlen)
+    try (exfalso; first [ now apply (proj1 (Hnp d)) | now apply (proj1 (proj2 (Hnp DAny)) ds fv) | now apply (proj1 (proj2 (proj2 (Hnp d))) minlen maxlen) | (eapply (proj2 (proj2 (proj2 (Hnp _)))); reflexivity)
                         | destruct (Hleaf ds) as (H1 & H2 & H3); first [now apply H1 | now apply H2 | now apply H3] ]);
     (* validators that never let anything through *)
     try (repeat (match goal with
@@ -944,11 +1010,28 @@ Proof.
   intros Hx; inversion Hx; subst. cbn -[MAXF]. eapply all_items_exn; eauto.
 Qed.
 
+Lemma dict_own E kd vd : own_at E kd -> own_at E vd -> wf_desc (DDict kd vd) = true ->
+  forall v e, dict_check (c_validate E kd) (c_validate E vd) v = Propagate e -> raises_own v e = true.
+Proof.
+  intros Hk Hv Hwf v e. cbn in Hwf. apply andb_prop in Hwf as [W1 W2].
+  unfold dict_check. destruct v; try discriminate.
+  destruct (all_pairs (c_validate E kd) (c_validate E vd) l) as [l'| |e0] eqn:Hm; try discriminate.
+  intros Hx; inversion Hx; subst. clear Hx. cbn -[MAXF].
+  revert Hm. induction l as [|[k x] l IH]; cbn -[MAXF]; [discriminate|].
+  destruct (c_validate E kd k) as [k1| |e1] eqn:Hck; try discriminate.
+  - destruct (c_validate E vd x) as [x1| |e1] eqn:Hcx; try discriminate.
+    + destruct (all_pairs (c_validate E kd) (c_validate E vd) l) as [l'| |e1]; try discriminate.
+      intros H; inversion H; subst. rewrite IH by reflexivity. apply orb_true_r.
+    + intros H; inversion H; subst. rewrite (Hv W2 x e Hcx). rewrite orb_true_r. reflexivity.
+  - intros H; inversion H; subst. now rewrite (Hk W1 k e Hck).
+Qed.
+
 Definition both_own_at (E : env) (d : desc) : Prop := own_at E d /\ pown_at E d.
 
 Lemma both_own E d : both_own_at E d.
 Proof.
-  induction d as [d H Hnp|d IHd|ds fv H|d mn mx IHd|ds H|ds H|ds H] using desc_ind'.
+  induction d as [d H Hnp|d IHd|ds fv H|d mn mx IHd|kd vd IHk IHv|ds H|ds H|ds H] using desc_ind'.
+  5:{ destruct IHk as [IHk _], IHv as [IHv _]. split; intros Hwf v e; cbn [c_validate py_validate]; now apply dict_own. }
   4:{ destruct IHd as [IHc _]. split; intros Hwf v e; cbn [c_validate py_validate]; now apply list_own. }
   - split; [now apply leaf_own | now apply py_leaf_own].
   - destruct IHd as [_ IHp]. split; intros Hwf v e; cbn [c_validate py_validate]; apply IHp; exact Hwf.
@@ -1177,7 +1260,7 @@ Qed.
 
 Lemma leaf_conv E d :
   bool_final E = true ->
-  (forall ds, d <> DTuple ds /\ d <> DCompound ds /\ d <> DUnion ds) -> (forall d', d <> DProperty d' /\ (forall ds fv, d <> DVTuple ds fv) /\ forall mn mx, d <> DList d' mn mx) -> conv_at E d.
+  (forall ds, d <> DTuple ds /\ d <> DCompound ds /\ d <> DUnion ds) -> (forall d', d <> DProperty d' /\ (forall ds fv, d <> DVTuple ds fv) /\ (forall mn mx, d <> DList d' mn mx) /\ forall d2, d <> DDict d' d2) -> conv_at E d.
 Proof.
   intros HB Hleaf Hnp _ v w. destruct d; cbn [c_validate conv_ok].
   - (* DAny *) intros H; inversion H; apply pv_eqb_refl.
@@ -1243,8 +1326,9 @@ Proof.
   - (* DArray *) apply py_array_conv.
   - (* DProperty *) exfalso. now apply (proj1 (Hnp d)).
   - (* DVTuple *) exfalso. now apply (proj1 (proj2 (Hnp DAny)) ds fv).
-  - (* DList *) exfalso. now apply (proj2 (proj2 (Hnp d)) minlen maxlen).
+  - (* DList *) exfalso. now apply (proj1 (proj2 (proj2 (Hnp d))) minlen maxlen).
   - (* DRangeDyn: no instance here *) discriminate.
+  - (* DDict *) exfalso. eapply (proj2 (proj2 (proj2 (Hnp _)))). reflexivity.
 Qed.
 
 (* the same on the Python path *)
@@ -1253,12 +1337,12 @@ Definition pconv_at (E : env) (d : desc) : Prop :=
 
 Lemma py_leaf_conv E d :
   bool_final E = true ->
-  (forall ds, d <> DTuple ds /\ d <> DCompound ds /\ d <> DUnion ds) -> (forall d', d <> DProperty d' /\ (forall ds fv, d <> DVTuple ds fv) /\ forall mn mx, d <> DList d' mn mx) -> pconv_at E d.
+  (forall ds, d <> DTuple ds /\ d <> DCompound ds /\ d <> DUnion ds) -> (forall d', d <> DProperty d' /\ (forall ds fv, d <> DVTuple ds fv) /\ (forall mn mx, d <> DList d' mn mx) /\ forall d2, d <> DDict d' d2) -> pconv_at E d.
 Proof.
   intros HB Hleaf Hnp Hwf v w.
   destruct d; cbn [py_validate conv_ok]; try discriminate;
     try (exact (leaf_conv E _ HB Hleaf Hnp Hwf v w));
-    try (exfalso; first [ now apply (proj1 (Hnp d)) | now apply (proj1 (proj2 (Hnp DAny)) ds fv) | now apply (proj2 (proj2 (Hnp d)) minlen maxlen)
+    try (exfalso; first [ now apply (proj1 (Hnp d)) | now apply (proj1 (proj2 (Hnp DAny)) ds fv) | now apply (proj1 (proj2 (proj2 (Hnp d))) minlen maxlen) | (eapply (proj2 (proj2 (proj2 (Hnp _)))); reflexivity)
                         | destruct (Hleaf ds) as (H1 & H2 & H3); first [now apply H1 | now apply H2 | now apply H3] ]);
     (* validators that store the value itself, or bool(v) *)
     try (repeat (match goal with
@@ -1329,6 +1413,20 @@ Proof.
     intros H; inversion H; subst. cbn. rewrite (Hd Hw x y Hv). cbn. now apply IH.
 Qed.
 
+Lemma dict_conv E kd vd : conv_at E kd -> conv_at E vd -> wf_desc (DDict kd vd) = true ->
+  forall v w, dict_check (c_validate E kd) (c_validate E vd) v = Accept w -> conv_ok E (DDict kd vd) v w = true.
+Proof.
+  intros Hk Hv Hwf v w. cbn in Hwf. apply andb_prop in Hwf as [W1 W2].
+  unfold dict_check. destruct v; try discriminate.
+  destruct (all_pairs (c_validate E kd) (c_validate E vd) l) as [l'| |e] eqn:Hm; try discriminate.
+  intros Hx; inversion Hx; subst. cbn [conv_ok]. destruct (all_pairs_rel _ _ _ _ Hm) as [R1 R2].
+  apply andb_true_intro. split; apply forallb_forall; intros y Hy; apply existsb_exists.
+  - apply (proj1 (dict_build_in l' y y)) in Hy. destruct (R1 y Hy) as (k & Hin & Hk'). exists k. split; [assumption|].
+    now apply Hk.
+  - apply (proj2 (dict_build_in l' y y)) in Hy. destruct (R2 y Hy) as (x & Hin & Hx'). exists x. split; [assumption|].
+    now apply Hv.
+Qed.
+
 Definition both_conv_at (E : env) (d : desc) : Prop := conv_at E d /\ pconv_at E d.
 
 Lemma tuple_conv E ds : Forall (conv_at E) ds -> conv_at E (DTuple ds) /\ pconv_at E (DTuple ds).
@@ -1354,7 +1452,8 @@ Qed.
 
 Lemma both_conv E d : bool_final E = true -> both_conv_at E d.
 Proof.
-  intros HB. induction d as [d H Hnp|d IHd|ds fv H|d mn mx IHd|ds H|ds H|ds H] using desc_ind'.
+  intros HB. induction d as [d H Hnp|d IHd|ds fv H|d mn mx IHd|kd vd IHk IHv|ds H|ds H|ds H] using desc_ind'.
+  5:{ destruct IHk as [IHk _], IHv as [IHv _]. split; intros Hwf v w; cbn [c_validate py_validate]; now apply dict_conv. }
   4:{ destruct IHd as [IHc _]. split; intros Hwf v w; cbn [c_validate py_validate]; now apply list_conv. }
   - split; [now apply leaf_conv | now apply py_leaf_conv].
   - destruct IHd as [_ IHp]. split; intros Hwf v w; cbn [c_validate py_validate conv_ok]; apply IHp; exact Hwf.
